@@ -165,6 +165,10 @@ def run(ctx):
                 ctx.case((name, smi, 'mol'), None)
                 ctx.count('mol_objects')
                 compare(ctx, name, lib, smi, base, m, r, 'mol')
+                # where do the relabelling theorems literally apply?  (measurement, reported in the evidence)
+                rel = S.renumbering_relation(rng, smi)
+                if rel is not None:
+                    ctx.count('renumbered_graph_is_' + rel)
                 # (c) renumbered molecule objects
                 m2, s2 = G.renumbered(rng, smi)
                 r2 = S.impl_descriptors(lib, m2)
